@@ -1,0 +1,8 @@
+//go:build verif
+
+package node
+
+import "github.com/evstack/ev-node/block"
+
+// VerifBlockManager exposes the block manager to the /verif conformance harness.
+func (n *FullNode) VerifBlockManager() *block.Manager { return n.blockManager }
